@@ -22,6 +22,8 @@ B = [
   "\t\tif runtime.CheckWitness(addr) {\n\t\t\treturn true\n\t\t}\n", "\t\tif runtime.CheckWitness(addr) || runtime.CheckWitness(runtime.GetCallingScriptHash()) {\n\t\t\treturn true\n\t\t}\n"),
  ("C02", "balance-caller-compared-with-nothing", "contracts/balance/contract.go",
   "\t\tif callingScriptHash.Equals(addr) {\n\t\t\treturn true\n\t\t}\n", "\t\tif callingScriptHash.Equals(addr) || len(callingScriptHash) == interop.Hash160Len && !runtime.GetEntryScriptHash().Equals(callingScriptHash) {\n\t\t\treturn true\n\t\t}\n"),
+ ("C09", "balance-lock-overwrites-existing-account", "contracts/balance/contract.go",
+  "\tif storage.Get(ctx, append([]byte{accPrefix}, to...)) != nil {\n\t\tpanic(\"lock account already exists\")\n\t}\n", ""),
  # ---- C04 / C05 / C14 container
  ("C04", "container-eacl-survives-delete", "contracts/container/contract.go",
   "\tstorage.Delete(ctx, append(eACLPrefix, id...))\n", ""),
